@@ -569,6 +569,35 @@ class State:
         c.relabel(lambda s: inv[s])
         return 'ok'
 
+    def o_addfrom_fn(self, hdst, hsrc, kind):
+        """addSimplicesFrom with a renaming *function* (on a deep copy of the target): the function is called at most
+        once per simplex and the result contains an isomorphic, attribute-preserving copy of the source"""
+        d = copy.deepcopy(self.C(hdst)); src = self.C(hsrc)
+        calls = collections.Counter()
+        counter = itertools.count()
+        fresh = {}
+
+        def fn(s):
+            calls[s] += 1
+            if kind == 'fresh':
+                return ('fresh', next(counter))          # a stateful generator of unique names
+            return ('r', s)
+        before = set(B.simplices(d))
+        try:
+            ns = d.addSimplicesFrom(src, rename=fn)
+        except (KeyError, ValueError) as e:
+            return 'FAIL addSimplicesFrom with a renaming function onto fresh names raised %r' % (e,)
+        if any(n > 1 for n in calls.values()):
+            return 'FAIL renaming function called %r times for one simplex' % (max(calls.values()),)
+        srcs = B.simplices(src)
+        if len(ns) != len(srcs) or len(set(ns)) != len(ns) or set(ns) & before:
+            return 'FAIL addSimplicesFrom returned %r' % (ns,)
+        m = dict(zip(srcs, ns))
+        for s in srcs:
+            if frozenset(B.faces(d, m[s])) != frozenset(m[x] for x in B.faces(src, s)) or B.getAttributes(d, m[s]) != B.getAttributes(src, s):
+                return 'FAIL the renamed copy of %r has other faces or attributes' % (s,)
+        return 'ok'
+
     def o_disjoint_names(self, h, hother):
         c = self.C(h); o = self.C(hother); old = self.snaps[h]
         if set(B.simplices(c)) & set(B.simplices(o)):
